@@ -126,7 +126,7 @@ PROPS["C15"] = {
                    "c15::c15_collect_vec_3", "c15::c15_collect_extend_3", "c15::c15_call_forwards",
                    "c15::c15_feed_twice_same_callback", "c15::c15_collect_vec_beyond_capacity",
                    "c15::c15_items_dropped_once", "c15::c15_citer_same_items_4", "c15::c15_citer_interleave_4",
-                   "c15::c15_citer_items_owned_once", "c15::c15_citer_unbounded_source", "c15::c15_negative_twin"],
+                   "c15::c15_citer_items_owned_once", "c15::c15_citer_unbounded_source", "c15::c15_citer_not_fused_source", "c15::c15_negative_twin"],
          "thorough_adds": ["c15::c15_feed_into_closure_6", "c15::c15_feed_into_mut_closure_6", "c15::c15_extend_closure_6",
                            "c15::c15_collect_vec_4", "c15::c15_collect_extend_4"],
          "timeout": 1500},
@@ -321,7 +321,7 @@ PROPS["C02"] = {
     "crate": "gen",
     "groups": [
         {"id": "shapes",
-         "quick": ["c02::c02_args_slices", "c02::c02_args_mutable", "c02::c02_args_values", "c02::c02_args_callback_iterator",
+         "quick": ["c02::c02_args_slices", "c02::c02_args_mutable", "c02::c02_args_values", "c02::c02_args_callback_iterator", "c02::c02_iterator_argument_not_fused",
                    "c02::c02_returns", "c02::c02_boxed_object", "c02::c02_npo_options", "c02::c02_narrow_options_and_zst_mut_slices", "c02::c02_negative_twin",
                    # integer-coded results with an io::Error payload (every i32 OS code) - shared with C13
                    "c13e::c13e_io_codes", "c13e::c13e_roundtrip"],
